@@ -10,9 +10,12 @@ from props import fsobs
 ID = 'C20'
 GEN_FILES = ['T_files_p8', 'T_p8scii',
              # the composition with the .p8 reader (Properties/C20Bytes.v) stands on the C03 / C06 models
-             'K_p8file', 'K_gfx', 'K_gff', 'K_map', 'K_sfx', 'K_music', 'T_lexer']
+             'K_p8file', 'K_gfx', 'K_gff', 'K_map', 'K_sfx', 'K_music', 'T_lexer',
+             # source pins of the hand-modelled modules (gen/kernels_pins.py)
+             'T_pins_p8']
 COQ_PROPERTY = 'theories/Properties/C20.vo'
-COQ_EXTRA = ['theories/Properties/C20Bytes.vo']
+COQ_EXTRA = ['theories/Properties/C20Bytes.vo',
+             'theories/Proofs/P8Pins.vo']
 MODEL = ('ExC20', 'c20_main.ml')
 MONITOR = ('MonC20', 'c20_mon_main.ml')
 RULE = ('four streams. re: every string of <= 5 (thorough: 6) tokens over {" ", "\\t", "#include", "a", ".", ".p8", '
